@@ -19,12 +19,30 @@ VERIF = os.path.dirname(os.path.dirname(os.path.abspath(__file__)))
 REPO = os.environ.get("HWLOC_VERIF_REPO", "/repo")
 BUILD = os.path.join(VERIF, "build")
 COQ_SRC = os.path.join(VERIF, "coq")
-# A non-default source root (mutation self-tests) gets its own copy of the Coq
-# tree, so that its regenerated Gen/Tables.v never disturbs the main one.
-if os.path.realpath(REPO) == "/repo":
-    COQ = COQ_SRC
-else:
-    COQ = os.path.join(BUILD, "coq-alt-" + hashlib.md5(os.path.realpath(REPO).encode()).hexdigest()[:10])
+# Coq build trees.  The main tree (coq/) is built by `check.py setup`.  Every
+# property check (`use_tree("Cxx")`) and every non-default source root
+# (mutation self-tests) builds in its own copy under build/, seeded with the
+# compiled files of the main tree, so that checks never wait for each other
+# and a regenerated Gen/Tables.v of one run never disturbs another.
+_ALT = "" if os.path.realpath(REPO) == "/repo" else "-alt-" + hashlib.md5(os.path.realpath(REPO).encode()).hexdigest()[:10]
+COQ = COQ_SRC if not _ALT else os.path.join(BUILD, "coq" + _ALT)
+
+
+def use_tree(name):
+    """Select the private Coq build tree of one check."""
+    global COQ
+    COQ = os.path.join(BUILD, "coq-%s%s" % (name, _ALT))
+    # forget the trees of mutation self-tests that were not used for two hours
+    try:
+        for n in os.listdir(BUILD):
+            pth = os.path.join(BUILD, n)
+            if n.startswith("coq") and "-alt-" in n and os.path.isdir(pth) and time.time() - os.path.getmtime(pth) > 7200:
+                shutil.rmtree(pth, ignore_errors=True)
+    except OSError:
+        pass
+    return COQ
+
+
 EVID = os.path.join(VERIF, "evidence")
 REPLAY = os.path.join(EVID, "replay")
 NCPU = os.cpu_count() or 4
@@ -251,8 +269,12 @@ def regen_tables():
         with open(dst, "rb") as f:
             old = f.read()
     if old != out:
-        with open(dst, "wb") as f:
-            f.write(out)
+        main = os.path.join(COQ_SRC, "Gen", "Tables.v")
+        if old is None and dst != main and os.path.exists(main) and open(main, "rb").read() == out:
+            shutil.copy2(main, dst)     # same content as the main tree: keep its mtime so the seeded .vo stay valid
+        else:
+            with open(dst, "wb") as f:
+                f.write(out)
     return dst
 
 
@@ -287,11 +309,11 @@ def _sync_alt_coq():
     if COQ == COQ_SRC:
         return
     os.makedirs(COQ, exist_ok=True)
-    sh(["rsync", "-a", "--delete", "--include=*/", "--include=*.v", "--exclude=*", "--exclude=Gen/Tables.v",
+    sh(["rsync", "-a", "--delete", "--exclude=Gen/Tables.v", "--include=*/", "--include=*.v", "--exclude=*",
         COQ_SRC + "/", COQ + "/"], check=True)
     # first use: seed with the compiled files of the main tree to stay incremental
     if not os.path.exists(os.path.join(COQ, ".seeded")):
-        sh(["rsync", "-a", "--include=*/", "--include=*.vo", "--include=*.glob", "--include=*.vos", "--include=*.vok",
+        sh(["rsync", "-a", "--include=*/", "--include=*.vo", "--include=*.glob", "--include=*.vos", "--include=*.vok", "--include=*.assumptions",
             "--exclude=*", COQ_SRC + "/", COQ + "/"])
         open(os.path.join(COQ, ".seeded"), "w").close()
 
@@ -446,6 +468,8 @@ def extract(prop_id, driver, extra_ml=(), prelude=()):
     """Compile coq/Extract/Extract_<id>.v (ExtrOcamlBasic only) in a build
     directory and link the extracted module with ocaml/<driver>.  Returns the
     executable path.  Cached on the hash of every .v it depends on."""
+    with locked("coq-" + os.path.basename(COQ)):
+        _sync_alt_coq()
     ev = os.path.join(COQ, "Extract", "Extract_%s.v" % prop_id)
     txt = open(ev).read()
     if re.search(r"Extract\s+(Constant|Inductive|Inlined)", _strip_coq_comments(txt)):
